@@ -43,7 +43,10 @@ def integral_data(ir: FormIR) -> IntegralData:
         names += [ir.integral_names[itg_type][i] for i in id_sort]
         domains += [ir.integral_domains[itg_type][i] for i in id_sort]
 
-        offsets.append(offsets[-1] + sum(len(d) for d in domains[offsets[-1] :]))
+        # One kernel is emitted per (integral, domain) pair of this type
+        offsets.append(
+            offsets[-1] + sum(len(ir.integral_domains[itg_type][i]) for i in id_sort)
+        )
 
     return IntegralData(names, ids, offsets, domains)
 
